@@ -565,6 +565,43 @@ example : ∃ p : Params, 0 ≤ radicand p 0 0 ∧ radicand p (nu p.dx (mx p) 0 
   ⟨{ kind := .angular, nx := 8, ny := 8, dx := 5/8, dy := 5/8, lam := 1, z := -1/4, n := 1, qx := 2, qy := 2,
      sx := 1, sy := 1 }, by decide +kernel⟩
 
+/-! ## dtype / tensor-shape bookkeeping of one `FourierFilter` object: history-independence
+
+`callStep` is `_compute_functions` (driver op `dtypes`, compared with `_transfer_function.dtype`, `internal_array.dtype`,
+`internal_array.shape` and the identity of both arrays after every call of a session on one real object). -/
+
+/-- Whatever the state before, after a call with dtype `dt` and tensor shape `ts` the cached transfer function has dtype
+`dt` and the scratch array has dtype `dt` and tensor shape `ts`. -/
+theorem callStep_state (s : FState) (c : Call) : callStep s c = ⟨some c.dt, some (c.dt, c.ts)⟩ := by
+  obtain ⟨tf, arr⟩ := s
+  unfold callStep tfRecomputed arrRecomputed
+  cases tf <;> cases arr <;> simp <;> grind
+
+/-- **History-independence** (unbounded histories): the state a call leaves behind depends on that call only — not on the
+dtypes and tensor shapes of the calls before it, nor on the state the object started from. -/
+theorem dtype_state_history_independent (s : FState) (l : List Call) (c : Call) :
+    runCalls s (l ++ [c]) = runCalls {} [c] := by
+  unfold runCalls
+  rw [List.foldl_append]
+  simp only [List.foldl_cons, List.foldl_nil]
+  rw [callStep_state, callStep_state]
+
+/-- A cached transfer function is reused only when its dtype is the dtype of the field: whenever the dtype of the field
+differs from that of the previous call the transfer function is recomputed from its source (never re-cast from the cached,
+possibly single-precision, copy). -/
+theorem transfer_function_recomputed_on_dtype_change (s : FState) (c c' : Call) (hd : c.dt ≠ c'.dt) :
+    tfRecomputed (callStep s c) c' = true := by
+  rw [callStep_state]
+  unfold tfRecomputed
+  simpa using hd
+
+/-- … and it is *not* recomputed when the dtype is unchanged, whatever the tensor shapes (the cache is effective). -/
+theorem transfer_function_reused_on_same_dtype (s : FState) (c c' : Call) (hd : c.dt = c'.dt) :
+    tfRecomputed (callStep s c) c' = false := by
+  rw [callStep_state]
+  unfold tfRecomputed
+  simpa using hd
+
 /-! ### what the driver op `filt` computes denotes the complex pipeline
 
 The driver runs `filterP` / `filterPBackward` at the scalar type `GRat` (Gaussian rationals) with the kernels
